@@ -46,8 +46,8 @@ ATTACH = {
 
 # crate -> (lib.rs, [model modules])
 CRATES = {
-    "core": ("core/src/lib.rs", ["vk", "verif_env", "verif_bump", "verif_map", "verif_dec"]),
-    "cli": ("cli/src/lib.rs", ["vk", "verif_env", "verif_map"]),
+    "core": ("core/src/lib.rs", ["vk", "verif_env", "verif_bump", "verif_map", "verif_dec", "verif_heap", "verif_alloc"]),
+    "cli": ("cli/src/lib.rs", ["vk", "verif_env", "verif_map", "verif_alloc"]),
     "golden": ("golden/src/lib.rs", ["vk", "verif_env", "verif_map"]),
 }
 
@@ -57,7 +57,7 @@ _MAP = "crate::verif_map"
 HASHMAP_SWAP = {
     "core/src/report/price_db.rs": [
         (r"use std::\{\n    collections::\{hash_map, BinaryHeap, HashMap\},\n    path::Path,\n\};",
-         "#[cfg(not(kani))] use std::collections::{hash_map, HashMap}; #[cfg(kani)] use %s::{hash_map, HashMap}; use std::{\n    collections::BinaryHeap,\n    path::Path,\n};" % _MAP),
+         "#[cfg(not(kani))] use std::collections::{hash_map, HashMap}; #[cfg(kani)] use %s::{hash_map, HashMap}; use std::{\n    path::Path,\n}; #[cfg(not(kani))] use std::collections::BinaryHeap; #[cfg(kani)] use crate::verif_heap::BinaryHeap;\n" % _MAP),
     ],
     "core/src/report/intern.rs": [
         (r"use std::\{collections::HashMap, fmt::Debug, hash::Hash, iter::FusedIterator, marker::PhantomData\};",
